@@ -43,6 +43,7 @@ func checkC04(c *Ctx) {
 		}
 	}
 	c04R6(c)
+	c04R7(c)
 	x.verifyLeaf()
 	x.verifyParent()
 	x.names()
@@ -884,4 +885,126 @@ func c04R6(c *Ctx) {
 		fs.report(c, rule, name, []string{"computed"}, P.Pos(fn.Pos()), fmt.Sprintf("holds on all %d paths that may answer true", trues))
 		c.Floor(rule, "paths of VerifySignature that may answer true", trues, 1)
 	}
+}
+
+// c04R7: a stream decoder (a module method ReadFrom(io.Reader)) called inside a loop on a local
+// receives a receiver that is fresh in every iteration: the local is allocated inside the loop, or
+// a whole-value store to it precedes the call inside the loop. The decoders append to the
+// receiver's slices and reuse its buffers (IDChunk.ReadFrom appends names, Certificate.ReadFrom
+// resets and refills raw), so a receiver carried over from the previous iteration makes a later
+// certificate of a bundle carry the names of an earlier one and makes stored copies share storage.
+func c04R7(c *Ctx) {
+	P := c.P
+	const rule = "C04.R7"
+	c.Rule(rule, "a decoder's receiver is fresh in every iteration: a module ReadFrom(io.Reader) that appends to its receiver's slices (itself or through a nested decoder), called in a loop on a local of the caller, gets a local allocated inside that loop or overwritten as a whole inside it before the call (block-cycle membership on the SSA CFG)")
+	c.Decides("that certificates / names decoded one after another from a bundle or chunk do not inherit names or storage from the one decoded before")
+	reach := func(from, to *ssa.BasicBlock) bool {
+		seen := map[*ssa.BasicBlock]bool{}
+		st := append([]*ssa.BasicBlock{}, from.Succs...)
+		for len(st) > 0 {
+			b := st[len(st)-1]
+			st = st[:len(st)-1]
+			if seen[b] {
+				continue
+			}
+			seen[b] = true
+			if b == to {
+				return true
+			}
+			st = append(st, b.Succs...)
+		}
+		return false
+	}
+	total := 0
+	for _, fn := range P.ModuleFuncs("certs", "authkeys", "authgrants") {
+		for _, b := range fn.Blocks {
+			for _, ins := range b.Instrs {
+				call, ok := ins.(*ssa.Call)
+				if !ok {
+					continue
+				}
+				g := staticCallee(&call.Call)
+				if g == nil || !InModule(g) || g.Name() != "ReadFrom" || g.Signature.Recv() == nil || len(call.Call.Args) != 2 {
+					continue
+				}
+				al, ok := call.Call.Args[0].(*ssa.Alloc)
+				if !ok {
+					continue
+				}
+				if !reach(b, b) {
+					continue // not in a loop
+				}
+				if !decoderAccumulates(g, 0) {
+					continue // overwrites every field it sets: a reused receiver is harmless
+				}
+				total++
+				name := FuncName(fn) + "#" + FuncName(g)
+				fresh := al.Block() != nil && al.Block() != fn.Blocks[0] && reach(al.Block(), b) && reach(b, al.Block())
+				if al.Block() == b {
+					fresh = true
+				}
+				if !fresh {
+					// a whole-value store to the local inside the loop that dominates the call
+					for _, r := range *al.Referrers() {
+						if st, ok := r.(*ssa.Store); ok && st.Addr == ssa.Value(al) && st.Block() != nil &&
+							reach(st.Block(), b) && (reach(b, st.Block()) || st.Block() == b) &&
+							(st.Block().Dominates(b) && (st.Block() != b || instrIndex(st) < instrIndex(call))) {
+							fresh = true
+						}
+					}
+				}
+				if fresh {
+					c.OK(rule, name, P.InstrPos(call), "receiver allocated or overwritten inside the loop")
+				} else {
+					c.Fail(rule, name, P.InstrPos(call), "the decoder's receiver is carried over from the previous iteration: the decoders append to and reuse the receiver's storage, so a later value inherits names from, and shares bytes with, the one decoded before")
+				}
+			}
+		}
+	}
+	c.Floor(rule, "accumulating decoder calls inside loops", total, 1)
+}
+
+// decoderAccumulates: g appends to a slice field of its receiver (the result depends on what the
+// receiver held before the call), or hands a field of its receiver to a module ReadFrom that does.
+func decoderAccumulates(g *ssa.Function, depth int) bool {
+	if g == nil || g.Blocks == nil || len(g.Params) == 0 || depth > 4 {
+		return false
+	}
+	rootedAtRecv := func(v ssa.Value) bool {
+		for i := 0; i < 6; i++ {
+			switch x := v.(type) {
+			case *ssa.FieldAddr:
+				v = x.X
+				continue
+			case *ssa.Parameter:
+				return x == g.Params[0]
+			}
+			return false
+		}
+		return false
+	}
+	for _, b := range g.Blocks {
+		for _, ins := range b.Instrs {
+			call, ok := ins.(*ssa.Call)
+			if !ok {
+				continue
+			}
+			if bi, isB := call.Call.Value.(*ssa.Builtin); isB {
+				if bi.Name() == "append" && len(call.Call.Args) > 0 {
+					if ld, ok := call.Call.Args[0].(*ssa.UnOp); ok && ld.Op == token.MUL {
+						if fa, ok := ld.X.(*ssa.FieldAddr); ok && rootedAtRecv(fa) {
+							return true
+						}
+					}
+				}
+				continue
+			}
+			if h := staticCallee(&call.Call); h != nil && InModule(h) && h.Name() == "ReadFrom" && len(call.Call.Args) > 0 {
+				if fa, ok := call.Call.Args[0].(*ssa.FieldAddr); ok && rootedAtRecv(fa) && decoderAccumulates(h, depth+1) {
+					return true
+				}
+			}
+		}
+	}
+	return false
 }
